@@ -95,12 +95,44 @@ def def_as_lambda(fn: ast.FunctionDef) -> ast.Lambda:
     return ast.copy_location(lam, fn)
 
 
+def is_pass_factory(fn: ast.FunctionDef):
+    """def factory(func):
+           @wraps(func)
+           def method(self, *args, **kwargs):
+               return func(self, *args, **kwargs)
+           return method
+    -- calling it on f yields exactly the Pass wrapper of f."""
+    a = fn.args
+    if fn.decorator_list or a.vararg or a.kwarg or a.kwonlyargs or a.posonlyargs or a.defaults or len(a.args) != 1:
+        return False
+    p = a.args[0].arg
+    body = [s_ for s_ in fn.body if not (isinstance(s_, ast.Expr) and isinstance(s_.value, ast.Constant))]
+    if len(body) != 2 or not isinstance(body[0], ast.FunctionDef) or not isinstance(body[1], ast.Return):
+        return False
+    inner, ret = body
+    if not (is_name(ret.value, inner.name) and len(inner.decorator_list) == 1):
+        return False
+    d = inner.decorator_list[0]
+    if not (isinstance(d, ast.Call) and is_name(d.func, "wraps") and len(d.args) == 1 and is_name(d.args[0], p) and not d.keywords):
+        return False
+    try:
+        return classify_lambda(def_as_lambda(ast.FunctionDef(name=inner.name, args=inner.args, body=inner.body, decorator_list=[],
+                                                             lineno=inner.lineno, col_offset=0)), p) == "Pass"
+    except Unsupported:
+        return False
+
+
 def classify(expr, defs=None):
     static = False
     if isinstance(expr, ast.Call) and is_name(expr.func, "staticmethod"):
         if len(expr.args) != 1 or expr.keywords:
             bail(expr, "staticmethod(...) with unexpected arguments")
         static, expr = True, expr.args[0]
+    # factory(f) for a module-level factory of Pass wrappers
+    if isinstance(expr, ast.Call) and is_name(expr.func) and defs and expr.func.id in defs and len(expr.args) == 1 \
+            and is_name(expr.args[0]) and not expr.keywords and defs[expr.func.id].get("factory"):
+        defs[expr.func.id]["n"] += 1
+        return expr.args[0].id, "Pass", static
     # wraps(f)(X)
     if not (isinstance(expr, ast.Call) and isinstance(expr.func, ast.Call) and is_name(expr.func.func, "wraps")
             and len(expr.func.args) == 1 and is_name(expr.func.args[0]) and not expr.func.keywords
@@ -115,7 +147,7 @@ def classify(expr, defs=None):
     elif is_name(x) and defs and x.id in defs:
         used = defs[x.id]
         used["n"] += 1
-        if used["n"] > 1:
+        if used["n"] > 1 and not used.get("factory"):
             bail(x, "wrapper function used for more than one method")
         kind = classify_lambda(def_as_lambda(used["fn"]), fname)
     else:
@@ -128,7 +160,7 @@ def translate(repo: Path) -> str:
     tree = ast.parse(path.read_text())
     rows = []
     imported = set()
-    defs = {n.name: {"fn": n, "n": 0} for n in tree.body if isinstance(n, ast.FunctionDef)}
+    defs = {n.name: {"fn": n, "n": 0, "factory": is_pass_factory(n)} for n in tree.body if isinstance(n, ast.FunctionDef)}
     for n in tree.body:
         if isinstance(n, ast.FunctionDef):
             continue            # only meaningful through the assignment that uses it (checked there)
